@@ -69,21 +69,6 @@ MaskConflict(po, ci) ==
 Unfillable(po, ci) == (po.grid = "none" /\ ci.grid = "none") \/ (po.time = "none" /\ ci.time = "none")
                       \/ (po.units = "none" /\ ci.units = "none") \/ (po.foo = "none" /\ ci.foo \in {"absent", "none"})
 
-(* C07 as theorems over the whole product of producer / consumer infos *)
-ASSUME \A po \in PInfos, ci \in CInfos :
-   LET r == Exchange(po, ci) IN
-   /\ (r.res = "ok") <=> ~(GridConflict(po, ci) \/ UnitsConflict(po, ci) \/ MaskConflict(po, ci) \/ Unfillable(po, ci))
-   /\ (r.res = "ok") =>
-        /\ r.inp.time # "none" /\ r.inp.grid # "none" /\ r.inp.units # "none"
-        /\ SameLocations(r.inp.grid, r.out.grid)
-        /\ Dim(r.inp.units) = Dim(r.out.units)
-        /\ ~MaskConflict(r.out, ci)
-        /\ (po.grid = "none" => r.out.grid = ci.grid) /\ (ci.grid = "none" => r.inp.grid = r.out.grid)
-        /\ (po.units = "none" => r.out.units = ci.units) /\ (ci.units = "none" => r.inp.units = r.out.units)
-        /\ (po.time = "none" => r.out.time = ci.time) /\ (ci.time = "none" => r.inp.time = r.out.time)
-        /\ (po.foo = "none" => r.out.foo = ci.foo) /\ (ci.foo = "none" => r.inp.foo = r.out.foo)
-        /\ r.inp.foo # "none" /\ r.out.foo # "none"
-
 Cases == {[po |-> po, ci |-> ci, via |-> v] : po \in PInfos, ci \in CInfos, v \in {"direct", "pass"}}
 (* two consumers on one output: the second is checked against what the first filled in *)
 Exchange2(po, c1, c2) ==
